@@ -719,6 +719,14 @@ class SimKernel:
         elif kind == "file_del":
             self.del_file(ev["path"])
             self.bump()
+        elif kind == "fork_self":
+            # the program under test fork()s and goes on in the child: same
+            # psutil module state, another PID; the old PID is now an
+            # ordinary process (the parent)
+            old = self.procs.get(self.self_pid)
+            self.spawn(pid=ev["pid"], ppid=self.self_pid,
+                       comm=old.comm if old is not None else b"python3")
+            self.self_pid = ev["pid"]
         elif kind == "nop":
             pass
         else:
